@@ -335,6 +335,7 @@ P_L2 = pq("L2_match_anti", "harness_L2", h=5, mem_est=1)
 P_L3 = pq("L3_do_rollback", "harness_L3", h=5)
 P_L4 = pq("L4_send_anti_messages", "harness_L4", h=5)
 P_STEP0 = pq("step_fresh_event", "harness_step", defs={"MODE": 0}, bounds="one real process_msg() of a fresh local event (in order / tie / straggler) from an arbitrary history of <= 4 entries; model schedules 0..2 events; checkpoint interval 1..3")
+P_STEP0R = pq("step_fresh_event_remote_sends", "harness_step", defs={"MODE": 0, "REMOTE": None}, bounds="as step_fresh_event, on rank 1 of 2: events scheduled for LP 0 go to another rank")
 P_STEP1 = [pq("step_local_anti_ak%s" % ("none" if ak > 3 else ak), "harness_step", defs={"MODE": 1, "AK": ak},
               mem_est=(1 if ak > 3 else 9),
               bounds="one real process_msg() of a cancelled local message: " + ("not yet processed (dropped)" if ak > 3 else "already processed as history entry %d (rollback)" % ak)) for ak in (0, 1, 2, 3, 9)]
@@ -378,7 +379,7 @@ SPECS["C02"] = dict(
     assumptions=PROC_ASSUME + ["component level only: one remote event and its anti-message on the receiving side, all arrival orders; ids of distinct messages are distinct (stamping is gvt.h)"],
     outside=["the end-to-end distributed equivalence", "the distributed GVT message counting", "real MPI", "MAX_THREADS = 4096 id overflow (F10)"],
     level_text="bounded component obligations on the receiving side of remote events/anti-messages (anti-message before, after, or without its event); the end-to-end statement is not encoded",
-    queries=[P_EARLY] + P_RANTI + [P_L4],
+    queries=[P_EARLY] + P_RANTI + [P_L4, P_STEP0R],
 )
 
 FN_NAMES = {0: "Random", 1: "RandomRange", 2: "RandomRangeNonUniform", 3: "Poisson", 4: "Normal", 5: "Gamma", 7: "RandomU64"}
